@@ -190,6 +190,40 @@ func c06Sites() []c06Site {
 			}
 			return w.Also().Expression(), true
 		}, false},
+		// a uses inside a grouping that is itself used with a when: every when on the way is kept, in order
+		{"nested-uses/own-when-last-in-chain", c06Hdr + `revision 0; grouping i { leaf l { type string; when ARG; } leaf p { type string; } } grouping o { uses i { when "B"; } leaf ol { type string; } } container c { uses o { when "A"; } } container d { uses o; } }`, func(m *meta.Module) (string, bool) {
+			chain := func(cn, ln string) []string {
+				var out []string
+				for _, d := range leafOf(m, cn).(*meta.Container).DataDefinitions() {
+					if d.Ident() == ln {
+						for w := d.(meta.HasWhen).When(); w != nil; w = w.Also() {
+							out = append(out, w.Expression())
+						}
+					}
+				}
+				return out
+			}
+			cl, dl := chain("c", "l"), chain("d", "l")
+			if len(cl) != 3 || cl[0] != "A" || cl[1] != "B" || len(dl) != 2 || dl[0] != "B" || dl[1] != cl[2] {
+				return fmt.Sprintf("chains %v and %v", cl, dl), true
+			}
+			if cp, dp, col := chain("c", "p"), chain("d", "p"), chain("c", "ol"); fmt.Sprint(cp) != "[A B]" || fmt.Sprint(dp) != "[B]" || fmt.Sprint(col) != "[A]" {
+				return fmt.Sprintf("chains of the siblings %v %v %v", cp, dp, col), true
+			}
+			return cl[2], true
+		}, false},
+		{"nested-uses/middle-when-in-chain", c06Hdr + `revision 0; grouping i { leaf l { type string; when "C"; } } grouping o { uses i { when ARG; } } container c { uses o { when "A"; } } }`, func(m *meta.Module) (string, bool) {
+			var out []string
+			for _, d := range leafOf(m, "c").(*meta.Container).DataDefinitions() {
+				for w := d.(meta.HasWhen).When(); w != nil; w = w.Also() {
+					out = append(out, w.Expression())
+				}
+			}
+			if len(out) != 3 || out[0] != "A" || out[2] != "C" {
+				return fmt.Sprintf("chain %v", out), true
+			}
+			return out[1], true
+		}, false},
 		{"uses/when-over-members-with-own-when", c06Hdr + `revision 0; grouping g { leaf l { type string; when "own"; } leaf l2 { type string; } } uses g { when ARG; } }`, func(m *meta.Module) (string, bool) {
 			w, w2 := leafOf(m, "l").(*meta.Leaf).When(), leafOf(m, "l2").(*meta.Leaf).When()
 			if w == nil || w2 == nil || w.Also() == nil || w.Also().Expression() != "own" || w2.Also() != nil || w2.Expression() != w.Expression() {
